@@ -10,7 +10,7 @@ from xv.props.common import new_case, build_root, flush_contracts, ctxs
 
 ID = "C03"
 LEVEL = "exploration"
-N_QUICK, N_THOROUGH = 70000, 1500000
+N_QUICK, N_THOROUGH = 140000, 1500000
 T_QUICK, T_THOROUGH = 70, 1500
 FLOORS = {"constructions": 4000, "assignments": 8000, "logged_writes": 50000, "changed_intervals": 20000,
           "size_checks": 4000, "with_live_neighbours": 1500, "assign:sc": 2000, "assign:str": 500,
